@@ -218,29 +218,74 @@ class Check:
             jobs.append(dict(module=module, cfg=cfg or module + ".cfg", env=en, workers=1, timeout=timeout))
         self.checker_cmds.append("TRACE_FILE=<chunk.ndjson> tlc -workers 1 -config %s %s   (x%d chunks)" % (cfg or module + ".cfg", module, len(jobs)))
         rejects = []
-        try:
-            results = tlc.run_many(jobs, parallel=NCPU)
-        except tlc.TLCError as ex:
-            self.machinery.append(str(ex)[-3000:])
-            return rejects
-        for (path, evs), r in zip(files, results):
-            self.states += r.distinct
-            self.transitions += r.generated
-            ids = {e["id"] for e in evs}
-            rej_here = 0
-            for p in r.printed:
-                if isinstance(p, list) and p and p[0] == "REJECT":
-                    rej_here += 1
-                    rid = p[1]
-                    rejects.append((rid, str(p[2]) if len(p) > 2 else "?", p[3:] ))
-            if r.violated:
-                self.machinery.append("trace spec %s reported %s on %s\n%s" % (module, r.violated, path, r.out[-2000:]))
-            if r.postcondition_false or r.rc != 0:
-                self.machinery.append("trace spec %s did not consume %s (rc=%s)\n%s" % (module, path, r.rc, r.out[-2000:]))
+        results = tlc.run_many_safe(jobs, parallel=NCPU)
+        for (path, evs), r, job in zip(files, results, jobs):
+            if isinstance(r, Exception) or r.postcondition_false or r.rc != 0 or r.violated:
+                # TLC could not evaluate some event of this chunk (the spec's operators hit a value outside their domain:
+                # the recorded result is malformed) -- isolate the offending group(s) by bisection and report them as
+                # rejected events; everything else in the chunk is validated normally.
+                groups_here = []
+                cur, key = [], object()
+                for e in evs:
+                    k = e[group_key] if stateful else e["id"]
+                    if k != key and cur:
+                        groups_here.append(cur)
+                        cur = []
+                    key = k
+                    cur.append(e)
+                if cur:
+                    groups_here.append(cur)
+                ok_results, bad_groups = self._bisect(module, job, groups_here, budget=[40])
+                if bad_groups is None:
+                    self.machinery.append("trace spec %s failed on %s and the failure could not be isolated\n%s" % (
+                        module, path, (str(r) if isinstance(r, Exception) else r.out)[-2500:]))
+                    continue
+                for g in bad_groups:
+                    rejects.append((g[-1]["id"] if stateful else g[0]["id"], "SpecCannotInterpretEvent", []))
+                results_here = ok_results
             else:
-                self.traces += len(evs) if not stateful else len({e[group_key] for e in evs})
+                results_here = [r]
+            for rr in results_here:
+                self.states += rr.distinct
+                self.transitions += rr.generated
+                for p in rr.printed:
+                    if isinstance(p, list) and p and p[0] == "REJECT":
+                        rejects.append((p[1], str(p[2]) if len(p) > 2 else "?", p[3:]))
+            self.traces += len(evs) if not stateful else len({e[group_key] for e in evs})
         self.evaluations += len(events)
         return rejects
+
+    def _bisect(self, module, job, groups, budget):
+        """Validate `groups` (lists of events); returns (results of the parts that validated, groups TLC cannot evaluate)."""
+        def run(gs):
+            path = os.path.join(self.work, "bis-%s.ndjson" % uuid.uuid4().hex[:8])
+            with open(path, "w") as f:
+                for g in gs:
+                    for e in g:
+                        f.write(json.dumps(e, separators=(",", ":")) + "\n")
+            j = dict(job)
+            j["env"] = dict(job["env"], TRACE_FILE=path)
+            try:
+                r = tlc.run(**j)
+            except tlc.TLCError as ex:
+                return None
+            return None if (r.postcondition_false or r.rc != 0 or r.violated) else r
+        if budget[0] <= 0:
+            return [], None
+        budget[0] -= 1
+        r = run(groups)
+        if r is not None:
+            return [r], []
+        if len(groups) == 1:
+            return [], [groups[0]]
+        mid = len(groups) // 2
+        ok1, bad1 = self._bisect(module, job, groups[:mid], budget)
+        if bad1 is None:
+            return [], None
+        ok2, bad2 = self._bisect(module, job, groups[mid:], budget)
+        if bad2 is None:
+            return [], None
+        return ok1 + ok2, bad1 + bad2
 
     # ---- bookkeeping
     def add_cases(self, cases):
